@@ -57,11 +57,12 @@ structure Queries where
   stor : Evm12.Addr → Nat → Nat
   getLogs : Nat → List Evm12.Log
   stake : Evm12.Addr → Nat
+  sui : Evm12.Addr → Bool
 
 /-- the same of a C12 world -/
 def queriesOf (w : Evm12.World) : Queries :=
   { exist := w.exists?, nonce := w.getNonce, bal := w.getBalance, code := w.getCode, stor := w.getState,
-    getLogs := w.getLogs, stake := w.getStake }
+    getLogs := w.getLogs, stake := w.getStake, sui := w.hasSuicided }
 
 /-- equal observations answer all queries alike -/
 theorem queries_of_obs {w w' : Evm12.World} (h : Evm12.obs w' = Evm12.obs w) : queriesOf w' = queriesOf w := by
@@ -72,8 +73,9 @@ theorem queries_of_obs {w w' : Evm12.World} (h : Evm12.obs w' = Evm12.obs w) : q
   have h5 := congrArg Evm12.Obs.stor h
   have h6 : w'.logs = w.logs := congrArg Evm12.Obs.logs h
   have h7 := congrArg Evm12.Obs.stake h
-  simp only [Evm12.obs] at h1 h2 h3 h4 h5 h7
-  simp only [queriesOf, h1, h2, h3, h4, h5, h7]
+  have h8 := congrArg Evm12.Obs.sui h
+  simp only [Evm12.obs] at h1 h2 h3 h4 h5 h7 h8
+  simp only [queriesOf, h1, h2, h3, h4, h5, h7, h8]
   congr 1
   funext th
   simp [Evm12.World.getLogs, h6]
@@ -87,7 +89,8 @@ def project (b : Bridge) (c : Cfg) (s : ADB) : Queries :=
     code := fun a => b.code (q (b.addr a) [] []).code
     stor := fun a k => beToNat (q (b.addr a) (b.slot k) []).slot
     getLogs := fun th => (q [] [] (b.hash th)).logs.map b.log
-    stake := fun a => beToNat (q b.minerDb (b.stakeKey a) []).slot }
+    stake := fun a => beToNat (q b.minerDb (b.stakeKey a) []).slot
+    sui := fun a => (q (b.addr a) [] []).suicided }
 
 /-- states that answer every C04 query alike have the same C12 projection -/
 theorem c12_obs_from_c04_queries (b : Bridge) (c : Cfg) (s s' : ADB)
